@@ -313,6 +313,111 @@ def c14_connlock_classify(line, res):
     return "eol%s/closes%s/closed%s/%s" % (f["eol"], "0" if ncl == 0 else ("1" if ncl == 1 else "2+"), r.get("closed"), r.get("final"))
 
 
+
+# ---------------------------------------------------------------- round 3: kind "aged"
+# a healthy pooled connection AGES between exchanges (harness/cmd/implrun/c14d.go); default time-outs of NewUpstream:
+# TLS handshake 3 s, dial 5 s, one-shot I/O 6 s, idle 10 s (udp 60 s, doh/doq 30 s)
+AGED_TR = ("udp", "tcp", "tcpp", "tls", "tlsp", "doh", "doq")
+
+
+def c14_aged_gen(rng, tier):
+    out = []
+
+    def add(tr, age, tick=0, n=2):
+        out.append("g%d tr=%s age=%d tick=%d n=%d" % (len(out), tr, age, tick, n))
+
+    for tr in AGED_TR:
+        # 0, just below / above the handshake time-out, above the dial and one-shot I/O time-outs (all below idle)
+        for age in (0, rng.choice([2500, 2700]), rng.choice([3300, 3500]), rng.choice([6400, 6800])):
+            add(tr, age)
+        # sustained traffic on the one connection across the handshake time-out
+        add(tr, rng.choice([3800, 4200]), tick=rng.choice([500, 700]))
+    if tier == "thorough":
+        for tr in AGED_TR:
+            for age in (1000, 2900, 3100, 4800, 5300, 5900, 6100, 8000):
+                add(tr, age, n=3)
+            add(tr, 8000, tick=900)
+    return out
+
+
+def c14_aged_oracle(line, res):
+    f = gens.fields(line)
+    r = _res(res)
+    s = r.get("res", "")
+    if r.get("late") == "1" or "H" in s or "L" in s:
+        return "c14-late: an exchange on the aged pooled connection returned later than its deadline + 1.5 s (%s)" % res
+    if s == "" or any(c not in "RE" for c in s):
+        return "c14-bad-result %s" % res
+    if "E" in s:
+        return ("c14-aged-connection: healthy server, the pooled connection is %s ms old (below the idle time-out), "
+                "but %d of %d exchanges failed; new connections seen by the server: %s (%s)"
+                % (f["age"], s.count("E"), len(s), r.get("acc"), res))
+    return None
+
+
+def c14_aged_compare(ir, mr):
+    a, b = _res(ir), _res(mr)
+    allr = a.get("res", "") != "" and set(a.get("res", "")) <= set("R")
+    # acc (connections the server saw) is reported, not compared: an extra connection does not concern the property and
+    # the count is exposed to timing (idle timers under load) and to other processes connecting to a loopback port
+    return ("ALLR" if allr else "FAIL") == b.get("res")
+
+
+def c14_aged_classify(line, res):
+    f = gens.fields(line)
+    age = int(f["age"])
+    b = "0" if age == 0 else ("<3s" if age < 3000 else ("3-6s" if age < 6000 else "6s+"))
+    return "%s/age%s/%s/%s" % (f["tr"], b, "tick" if f["tick"] != "0" else "silent",
+                               "ok" if set(_res(res).get("res", "E")) <= set("R") else "failed")
+
+
+# ---------------------------------------------------------------- round 3: kind "dup"
+# the server sends every reply k times (back to back / interleaved), then follow-up exchanges on the same upstream
+def c14_dup_gen(rng, tier):
+    out = []
+
+    def add(tr, k, mode, conc, after=3):
+        out.append("u%d tr=%s k=%d mode=%s conc=%d after=%d dl=%d" % (len(out), tr, k, mode, conc, after,
+                                                                        rng.choice([500, 600, 700])))
+
+    for _ in range(budget(tier, 1, 10)):
+        for tr in ("udp", "tcpp", "tlsp"):
+            for k in (1, 2, 3, 4, 8):
+                add(tr, k, "b2b", 1)
+                add(tr, k, rng.choice(["b2b", "inter"]), rng.choice([2, 3, 4, 8]))
+            add(tr, rng.choice([3, 5, 16]), "inter", rng.choice([2, 4]), after=rng.choice([1, 5]))
+    return out
+
+
+def c14_dup_oracle(line, res):
+    f = gens.fields(line)
+    r = _res(res)
+    first, after = r.get("first"), r.get("after", "")
+    if first == "HANG" or "H" in after or "L" in after or r.get("late") == "1":
+        return "c14-late: an exchange returned later than its deadline + 1.5 s (%s)" % res
+    if first not in ("REPLY", "ERR", "MIXED") or any(c not in "RE-" for c in after):
+        return "c14-bad-result %s" % res
+    if first != "REPLY" or "E" in after or r.get("when") != "early":
+        return ("c14-duplicate-replies: the server answers every query (each reply %s times, %s), but an exchange "
+                "failed or waited out its %s ms deadline: the connection is no longer read (%s)"
+                % (f["k"], f["mode"], f["dl"], res))
+    return None
+
+
+def c14_dup_compare(ir, mr):
+    a, b = _res(ir), _res(mr)
+    return all(a.get(k) == b.get(k) for k in ("first", "after", "when"))
+
+
+def c14_dup_classify(line, res):
+    f = gens.fields(line)
+    k = int(f["k"])
+    r = _res(res)
+    return "%s/k%s/%s/conc%s/%s" % (f["tr"], "1" if k == 1 else ("2" if k == 2 else "3+"), f["mode"],
+                                   "1" if f["conc"] == "1" else "2+",
+                                   "ok" if r.get("first") == "REPLY" and set(r.get("after", "E")) <= set("R-") else "failed")
+
+
 PROPS["C14"] = dict(
     kinds=[dict(name="faults", gen=c14_gen, oracle=c14_oracle, compare=c14_compare, classify=c14_classify,
                 nontrivial=lambda l, r: True, timeout=900),
@@ -320,7 +425,11 @@ PROPS["C14"] = dict(
                 classify=c14_outage_classify, nontrivial=lambda l, r: True, timeout=900),
            dict(name="connlock", gen=c14_connlock_gen, oracle=c14_connlock_oracle,
                 compare=lambda a, b: a.split(" || ")[0] == b.split(" || ")[0],
-                classify=c14_connlock_classify, nontrivial=lambda l, r: True, timeout=600)],
+                classify=c14_connlock_classify, nontrivial=lambda l, r: True, timeout=600),
+           dict(name="dup", gen=c14_dup_gen, oracle=c14_dup_oracle, compare=c14_dup_compare,
+                classify=c14_dup_classify, nontrivial=lambda l, r: True, timeout=600),
+           dict(name="aged", gen=c14_aged_gen, oracle=c14_aged_oracle, compare=c14_aged_compare,
+                classify=c14_aged_classify, nontrivial=lambda l, r: True, timeout=900)],
     rule="one scripted exchange of a real upstream.NewUpstream (udp, tcp, tcp+pipeline, tls, tls+pipeline, https/h2, quic) "
          "against a fake loopback server (DoQ: quic-go server): refuse / black-hole dial / accept-and-close / silent / half frame / garbage / "
          "FIN / RST on fresh connections, and on pooled connections while idle or at their next use, incl. k = 1, 5, 6, "
@@ -329,7 +438,11 @@ PROPS["C14"] = dict(
          "then a healthy server: every exchange returns by its deadline + 1.5 s and the later ones get their reply) for "
          "udp, tcp, tcp+pipeline, tls, tls+pipeline, https, quic and the transport constructors over scripted dialers "
          "(incl. connections whose Write and Read both fail); connlock: goroutines running the lock-protected "
-         "operations of one real pipelineConn against the model of its mutex; distinct = distinct case line; all are "
+         "operations of one real pipelineConn against the model of its mutex; dup: every reply sent 1, 2, 3, 4, 8 times "
+         "(back to back / interleaved) on udp, tcp+pipeline, tls+pipeline, then follow-up exchanges that must succeed "
+         "promptly; aged: a healthy pooled connection ages 0 / 2.5 / 3.5 / 6.5 s (below, above the handshake, dial and "
+         "one-shot I/O time-outs, below the idle time-out), silently or under traffic, for all seven upstream kinds: "
+         "every exchange must get its reply; distinct = distinct case line; all are "
          "non-trivial (each runs real sockets / the real connection object)",
     assumptions=["loopback TCP/UDP/TLS delivery; context deadlines 300-500 ms for cases expected to wait, 1200 ms "
                  "otherwise; 1.5 s slack on the return time; 'early' = returned before the deadline",
